@@ -46,9 +46,24 @@ func linConsts(repo string, add func(string, int64, string)) error {
 		return fmt.Errorf("memmap.go: MemMapFs.OpenFile not found")
 	}
 	lookupThenCreate := countMethodCalls(of, "openWrite", "open", "Open", "Stat") > 0 && countMethodCalls(of, "Create") > 0
-	ownLock := countMethodCalls(of, "Lock") > 0
-	if !lookupThenCreate && !ownLock {
-		return fmt.Errorf("memmap.go: OpenFile: neither the lookup-then-Create shape nor an own critical section recognised")
+	if !lookupThenCreate {
+		// repaired shape: OpenFile itself, or a method of MemMapFs it calls, looks the name up and
+		// creates the file (mem.CreateFile) inside one write-locked section
+		own := countMethodCalls(of, "Lock") > 0 && countMethodCalls(of, "CreateFile") > 0
+		ast.Inspect(of, func(x ast.Node) bool {
+			if ce, ok := x.(*ast.CallExpr); ok {
+				if se, ok := ce.Fun.(*ast.SelectorExpr); ok {
+					if h := m.fn("MemMapFs", se.Sel.Name); h != nil && h != of &&
+						countMethodCalls(h, "Lock") == 1 && countMethodCalls(h, "RLock") == 0 && countMethodCalls(h, "CreateFile") > 0 {
+						own = true
+					}
+				}
+			}
+			return true
+		})
+		if !own {
+			return fmt.Errorf("memmap.go: OpenFile: neither the lookup-then-Create shape nor a single write-locked lookup+create section recognised")
+		}
 	}
 	add("lin_openfile_split", b2i(lookupThenCreate),
 		"memmap.go OpenFile: 1 iff a missing file is created by a separate call of Create after the lookup released the lock (two critical sections)")
@@ -68,8 +83,8 @@ func linConsts(repo string, add func(string, int64, string)) error {
 		return fmt.Errorf("memmap.go: MemMapFs.RemoveAll not found")
 	}
 	n := countMethodCalls(ra, "Lock", "RLock")
-	if n == 0 {
-		return fmt.Errorf("memmap.go: RemoveAll: no lock acquisition found")
+	if n != 1 && n != 4 {
+		return fmt.Errorf("memmap.go: RemoveAll: %d lock acquisitions: neither today's shape (4) nor one critical section (1); update Model/Lin.v", n)
 	}
 	add("lin_removeall_locks", n,
 		"memmap.go RemoveAll: number of Lock/RLock acquisitions in its body (1 = one critical section)")
@@ -86,8 +101,8 @@ func linConsts(repo string, add func(string, int64, string)) error {
 		}
 		n += countMethodCalls(sfm, "Lock", "RLock")
 	}
-	if n == 0 {
-		return fmt.Errorf("memmap.go: Chmod: no lock acquisition found")
+	if n != 1 && n != 3 {
+		return fmt.Errorf("memmap.go: Chmod: %d lock acquisitions: neither today's shape (3) nor one critical section (1); update Model/Lin.v", n)
 	}
 	add("lin_chmod_locks", n,
 		"memmap.go Chmod (with setFileMode when called): number of Lock/RLock acquisitions (1 = lookup and update in one critical section)")
@@ -96,8 +111,8 @@ func linConsts(repo string, add func(string, int64, string)) error {
 		return fmt.Errorf("memmap.go: MemMapFs.Chtimes not found")
 	}
 	n = countMethodCalls(ct, "Lock", "RLock")
-	if n == 0 {
-		return fmt.Errorf("memmap.go: Chtimes: no lock acquisition found")
+	if n != 1 && n != 2 {
+		return fmt.Errorf("memmap.go: Chtimes: %d lock acquisitions: neither today's shape (2) nor one critical section (1); update Model/Lin.v", n)
 	}
 	add("lin_chtimes_locks", n,
 		"memmap.go Chtimes: number of Lock/RLock acquisitions (1 = lookup and update in one critical section)")
